@@ -38,13 +38,86 @@ def flags_noninterference(rep, F, E, names, rule='FLAGS'):
     return ncalls, getters
 
 
+def bounded_fill(rep, F, names, rule='BOUNDED-FILL'):
+    """what is compared with the padding limit is what is written: in every function that consults
+    FMT_MAX_INTEGER_PADDING, each path that grows the digit buffer by Y (Vec::resize(v, len + Y, _)) carries the
+    within-limit outcome of a comparison of that same Y with the limit.  A limit tested on a part of the amount
+    (or on another quantity) lets the padding exceed the documented bound"""
+    from rules import table as TB
+    lim = [c for k, c in F.consts.items() if k.endswith('FMT_MAX_INTEGER_PADDING')]
+    if not lim:
+        rep.violation(rule, 'FMT_MAX_INTEGER_PADDING:missing', 'generated constant not found (fail closed)')
+        return 0
+    limit = int(lim[0]['val'])
+    n = 0
+    for nme in sorted(names):
+        fn = F.fns[nme]
+        if fn.is_closure:
+            continue
+        uses = any(o.get('k') == 'const' and str(o.get('named', '')).endswith('FMT_MAX_INTEGER_PADDING')
+                   for bid, st in fn.stmts() if st['rv']['r'] == 'bin' for o in (st['rv']['a'], st['rv']['b']))
+        if not uses:
+            continue
+        try:
+            pe = TB.PathEnum(F, fn, max_paths=400)
+            paths = pe.run()
+        except TB.Undecided as e:
+            rep.undecided(rule, fn.key + ':limit-bounds-fill', str(e), fn.where())
+            continue
+        bad = None
+        good = 0
+        for (atoms, out), eff in zip(paths, pe.effects):
+            for callee, args in eff:
+                if not re.search(r'Vec::<.*>::resize$|Vec::resize$', TB._plain(callee)) and not TB._plain(callee).endswith('Vec::resize'):
+                    continue
+                amt = TB.strip_refs(args[1])
+                Y = None
+                if isinstance(amt, tuple) and amt[0] == 'bin' and amt[1] == 'Add':
+                    for x, y in ((amt[2], amt[3]), (amt[3], amt[2])):
+                        if isinstance(x, tuple) and x[0] == 'call' and TB._plain(x[1]).endswith('::len'):
+                            Y = y
+                if Y is None:
+                    bad = bad or ('undecided', 'growth amount not of the form len + Y: %s' % TB.show(amt)[:80])
+                    continue
+                tested = []
+                ok = False
+                for a, c in atoms:
+                    a = TB.strip_refs(a)
+                    if not (isinstance(a, tuple) and a[0] == 'bin' and a[1] in ('Gt', 'Ge', 'Lt', 'Le')):
+                        continue
+                    for lhs, rhs, op in ((a[2], a[3], a[1]), (a[3], a[2], {'Gt': 'Lt', 'Ge': 'Le', 'Lt': 'Gt', 'Le': 'Ge'}[a[1]])):
+                        if rhs == ('const', limit):
+                            truth = not (c == ('eq', 0))
+                            within = (op in ('Gt', 'Ge') and not truth) or (op in ('Lt', 'Le') and truth)
+                            tested.append(lhs)
+                            if lhs == Y and within:
+                                ok = True
+                if ok:
+                    good += 1
+                elif tested:
+                    bad = ('violation', 'the buffer grows by %s but the limit %d is tested on %s: the quantity written is not the quantity bounded' % (TB.show(Y)[:90], limit, TB.show(tested[0])[:60]))
+                else:
+                    bad = bad or ('violation', 'the buffer grows by %s on a path that never compares it with the padding limit' % TB.show(Y)[:90])
+        n += 1
+        key = fn.key + ':limit-bounds-fill'
+        if bad and bad[0] == 'violation':
+            rep.violation(rule, key, bad[1], fn.where())
+        elif bad:
+            rep.undecided(rule, key, bad[1], fn.where())
+        elif good:
+            rep.ok(rule, key, '%d growing path(s): each carries `amount <= FMT_MAX_INTEGER_PADDING` on exactly the amount passed to resize' % good, fn.where())
+        else:
+            rep.undecided(rule, key, 'function consults the limit but no buffer growth was recognised', fn.where())
+    return n
+
+
 def run(ctx):
     rep = ctx.rep
     rep.explanation = ('Static MIR analysis. PROV-FMTROUND: every rounding-data construction / rounding call reachable from Display, LowerExp, UpperExp '
                        'takes the generated DEFAULT_ROUNDING_MODE and the sign of the formatted number. The padding limit FMT_MAX_INTEGER_PADDING '
                        'feeds a comparison on those paths. FLAGS (sufficient condition for "flags never alter the digits"): no value obtained from '
                        'Formatter::{width,fill,align,sign_plus,sign_minus,sign_aware_zero_pad,flags,alternate} flows into the bytes written or into '
-                       'pad_integral. UNITS (contradiction rule): on the formatting paths every byte container is used consistently as ASCII text or as digit values (a `== 0` / is_zero test on bytes that are elsewhere offset by b\'0\' is a contradiction). NOT decided: that the ASCII-digit rounding agrees numerically with the library\'s rounding routines.')
+                       'pad_integral. UNITS (contradiction rule): on the formatting paths every byte container is used consistently as ASCII text or as digit values (a `== 0` / is_zero test on bytes that are elsewhere offset by b\'0\' is a contradiction). BOUNDED-FILL: where the padding limit is consulted, the amount compared with it is exactly the amount the buffer grows by. NOT decided: that the ASCII-digit rounding agrees numerically with the library\'s rounding routines.')
     F = ctx.facts('default', 'rel')
     if not hasattr(F, '_prov'):
         F._prov = prov.ProvEngine(F)
@@ -59,6 +132,8 @@ def run(ctx):
     nc, ng = flags_noninterference(rep, F, E, names)
     nu = units.check(rep, F, names)
     rep.floor('byte containers with a consistent unit', nu, 4)
+    nb = bounded_fill(rep, F, names)
+    rep.floor('functions consulting the padding limit', nb, 1)
     # sign handed to pad_integral derives from the number's sign
     n_pad = 0
     for nme in sorted(names):
